@@ -217,7 +217,11 @@ def main(argv=None):
     lm = lemmas.prove_all()
     if not all(v[0] == 'unsat' for v in lm.values()):
         print('BROKEN: encoder normalisation lemma not proved', lm); sys.exit(2)
-    code, ev, lines = run_property(pm, a.tier, seed, a.cfg, a.case)
+    try:
+        code, ev, lines = run_property(pm, a.tier, seed, a.cfg, a.case)
+    except Exception:
+        import traceback
+        print('BROKEN: internal error in the checker (no verdict):\n' + traceback.format_exc()[-2000:]); sys.exit(2)
     ev['coverage']['encoder_lemmas'] = {k: v[0] for k, v in lm.items()}
     for l in lines: print(l)
     c = ev['coverage']
